@@ -20,8 +20,8 @@ Theorem C10_bijection : forall prods lex,
   (forall i, length tm <= i -> id_of_z tm i = None).
 Proof.
   intros prods lex tm. split.
-  - exact (terminals_NoDup (list Z) zstr_eqb INVALID_z EOF_z zstr_eqb_eq prods lex).
-  - exact (tokmap_bijection (list Z) zstr_eqb INVALID_z EOF_z zstr_eqb_eq prods lex).
+  - exact (terminals_NoDup (list Z) zstr_eqb INVALID_z EOF_z EMPTY_z zstr_eqb_eq prods lex).
+  - exact (tokmap_bijection (list Z) zstr_eqb INVALID_z EOF_z EMPTY_z zstr_eqb_eq prods lex).
 Qed.
 Print Assumptions C10_bijection.
 
@@ -33,15 +33,27 @@ Theorem C10_invalid_0_eof_1 : forall prods lex,
   id_of_z (terminals_z prods lex) 0 = Some INVALID_z /\ id_of_z (terminals_z prods lex) 1 = Some EOF_z.
 Proof.
   intros prods lex H1 H2.
-  apply (type_of_INVALID_EOF (list Z) zstr_eqb INVALID_z EOF_z zstr_eqb_eq prods lex); [discriminate|exact H1|exact H2].
+  apply (type_of_INVALID_EOF (list Z) zstr_eqb INVALID_z EOF_z EMPTY_z zstr_eqb_eq prods lex); [discriminate|discriminate|discriminate|exact H1|exact H2].
 Qed.
 Print Assumptions C10_invalid_0_eof_1.
 
-(** every other terminal of the grammar (named tokens, string literals) is numbered, nothing else is *)
+(** every other terminal of the grammar (named tokens, string literals) is numbered, nothing else is: in particular
+    not the keyword "empty" of an empty alternative, which is a body symbol for gocc (repair of defect D18: it used to
+    occupy a number, so that Type("empty") was not INVALID and the terminals' numbers had a gap) *)
 Theorem C10_exactly_the_terminals : forall prods lex s,
   In s (terminals_z prods lex) <->
-  ~ In s (map fst prods) /\ (s = INVALID_z \/ s = EOF_z \/ In s (flat_map snd prods) \/ In s lex).
-Proof. exact (terminals_In (list Z) zstr_eqb INVALID_z EOF_z zstr_eqb_eq). Qed.
+  ~ In s (map fst prods) /\ s <> EMPTY_z /\
+  (s = INVALID_z \/ s = EOF_z \/ In s (flat_map snd prods) \/ In s lex).
+Proof. exact (terminals_In (list Z) zstr_eqb INVALID_z EOF_z EMPTY_z zstr_eqb_eq). Qed.
+
+Corollary C10_empty_keyword_is_unknown : forall prods lex,
+  type_of_z (terminals_z prods lex) EMPTY_z = 0.
+Proof.
+  intros prods lex.
+  destruct (C10_bijection prods lex) as (_ & _ & _ & H & _). apply H.
+  intro HI. apply C10_exactly_the_terminals in HI. destruct HI as (_ & HE & _). now apply HE.
+Qed.
+Print Assumptions C10_empty_keyword_is_unknown.
 Print Assumptions C10_exactly_the_terminals.
 
 Example C10_example :
